@@ -1086,6 +1086,12 @@ class PyExec:
             for c in recv.codes:
                 self.guard(st, "UnicodeEncodeError.latin1", z3.And(c >= 0, c <= 255), n)
             return PStr(list(recv.codes))
+        if (meth in self.opt.get("uf_methods", ()) and isinstance(recv, PAny) and n.args and not n.keywords
+                and all(isinstance(a_, ast.Constant) and isinstance(a_.value, str) for a_ in n.args)):
+            # e.g. text.lstrip('+-') on an abstract string identity: an uninterpreted function of the identity per constant argument list
+            tag = "_".join(a_.value.encode("utf-8").hex() for a_ in n.args)
+            self.assumptions.add("str methods with constant arguments on abstract strings are uninterpreted functions of the string (%s)" % meth)
+            return PAny(z3.Function("method_%s_%s" % (meth, tag), IntSort, IntSort)(recv.t))
         if meth in self.opt.get("uf_methods", ()) and isinstance(recv, PAny) and not n.args and not n.keywords:
             # e.g. text.lower() on an abstract string identity: an uninterpreted function of the identity
             return PAny(z3.Function("method_" + meth, IntSort, IntSort)(recv.t))
